@@ -176,7 +176,12 @@ prop("C05",
          "every other field equal), so the value is preserved by congruence; "
          "the input node, its nested records and its tuple/dict objects are "
          "not written; tag-adding operations change tags only; dead-code "
-         "elimination rewrites exactly pytato.zero lambdas."),
+         "elimination rewrites exactly pytato.zero lambdas. In addition "
+         "(contract transform.value, translation validation): every public "
+         "pass is run on seeded random DAGs and special programs and its "
+         "output is proved (z3, all sizes, inputs and indices) to denote "
+         "what the program as written denotes, with names, shapes and dtypes "
+         "kept, only the program's inputs read and the input graph unchanged."),
      level_note=(
          "Value preservation is over the congruence 'a node's value is a "
          "function of its class, its non-array fields and its children's "
